@@ -13,7 +13,7 @@ import time
 import z3
 
 from . import spec as S
-from .spec import Opt, BoolV, RealV, SliceV, SeqV, TupV, MapV, StrV, NanV, ObjV, AbsV
+from .spec import Opt, BoolV, RealV, SliceV, SeqV, TupV, MapV, StrV, NanV, ObjV, AbsV, SliceSeqV, SortedItemsV
 from .contract import Contract, REGISTRY, for_function
 
 
@@ -107,7 +107,7 @@ def unwrap(v):
 
 def wrap(v):
     """contract-level value back into an engine value."""
-    if isinstance(v, (Opt, BoolV, RealV, SliceV, SeqV, TupV, MapV, StrV, NanV, ObjV, AbsV)):
+    if isinstance(v, (Opt, BoolV, RealV, SliceV, SeqV, TupV, MapV, StrV, NanV, ObjV, AbsV, SliceSeqV, SortedItemsV)):
         return v
     if v is None:
         return NONE
@@ -211,6 +211,7 @@ class Exec:
         self.ghosts = {}
         self.nfresh = 0
         self.lemmas_used = []
+        self.call_log = []
         self.local_imports = {}
         self.havocked = set()
         self.havoc_map = {ast.unparse(ast.parse(k, mode="eval").body): v
@@ -401,6 +402,10 @@ class Exec:
             return {}
         kw = {k: unwrap(v) for k, v in params.items()}
         kw.update({k: unwrap(v) for k, v in ghosts.items()})
+        import inspect
+        if c is self.c and "env" in inspect.signature(c.ensures).parameters:
+            kw["env"] = FragResult(dict(getattr(self, "_final_env", {})))
+            kw["calls"] = list(self.call_log)
         r = c.ensures(result=unwrap(result), **kw)
         if not isinstance(r, dict):
             r = {"post": r}
@@ -413,6 +418,7 @@ class Exec:
             kind, payload = "return", (NONE, getattr(fn, "end_lineno", fn.lineno))
         if kind == "return":
             val, line = payload
+            self._final_env = st.env
             if c.post_hints is not None:
                 kw = {k: unwrap(v) for k, v in self.params.items()}
                 kw.update({k: unwrap(v) for k, v in self.ghosts.items()})
@@ -509,6 +515,15 @@ class Exec:
             return SeqV(S.f_append(base.t, S.as_int(self.need_int(args[0], st, node))), base.kind)
         if attr == "append" and isinstance(base, TupV) and base.kind == "list":
             return TupV(base.items + [args[0]], "list")
+        if attr == "reverse" and isinstance(base, SliceSeqV):
+            self.nfresh += 1
+            out = SliceSeqV.fresh(f"rev!{self.nfresh}", base.n)
+            jj = z3.Int("j!rev")
+            for k in base.a:
+                st.pc.append(z3.ForAll([jj], z3.Implies(z3.And(0 <= jj, jj < base.n),
+                                                        z3.Select(out.a[k], jj) == z3.Select(base.a[k], base.n - 1 - jj)),
+                                       patterns=[z3.Select(out.a[k], jj)]))
+            return out
         if attr == "reverse" and isinstance(base, SeqV):
             return SeqV(S.f_rev(base.t), base.kind)
         if attr == "reverse" and isinstance(base, TupV):
@@ -1088,6 +1103,10 @@ class Exec:
         v = self.eval(it, st)
         if isinstance(v, SeqV):
             return {"n": S.f_len(v.t), "elem": lambda k, s: I(S.f_at(v.t, k))}
+        if isinstance(v, SortedItemsV):
+            return {"n": v.n, "elem": lambda k, s: TupV([I(S.f_at(v.keys, k)), v.m.get(S.f_at(v.keys, k))])}
+        if isinstance(v, SliceSeqV):
+            return {"n": v.n, "elem": lambda k, s: v.get(k)}
         raise Unsupported(f"iteration over {ast.dump(it)[:80]} line {node.lineno}")
 
     def stmt_While(self, node, st):
@@ -1347,15 +1366,37 @@ class Exec:
         if isinstance(a, RealV) or isinstance(b, RealV):
             ra = a.t if isinstance(a, RealV) else z3.ToReal(S.as_int(self.need_int(a, st, node)))
             rb = b.t if isinstance(b, RealV) else z3.ToReal(S.as_int(self.need_int(b, st, node)))
+
+            def rat(v):
+                # exact integer quotient behind an int-valued float (assumption A3), if known
+                if isinstance(v, RealV):
+                    if v.ratio is not None:
+                        return v.ratio
+                    tv = z3.simplify(v.t)
+                    if z3.is_rational_value(tv) and tv.denominator_as_long() == 1:
+                        return (z3.IntVal(tv.numerator_as_long()), z3.IntVal(1))
+                    return None
+                return (S.as_int(v), z3.IntVal(1))
+            qa, qb = rat(a), rat(b)
+            one = lambda q: q is not None and z3.is_int_value(z3.simplify(q[1])) and z3.simplify(q[1]).as_long() == 1
+            ratio = None
             if isinstance(op, ast.Add):
-                return RealV(ra + rb)
+                if one(qa) and one(qb):
+                    ratio = (qa[0] + qb[0], z3.IntVal(1))
+                return RealV(ra + rb, ratio=ratio)
             if isinstance(op, ast.Sub):
-                return RealV(ra - rb)
+                if one(qa) and one(qb):
+                    ratio = (qa[0] - qb[0], z3.IntVal(1))
+                return RealV(ra - rb, ratio=ratio)
             if isinstance(op, ast.Mult):
-                return RealV(ra * rb)
+                if one(qa) and one(qb):
+                    ratio = (qa[0] * qb[0], z3.IntVal(1))
+                return RealV(ra * rb, ratio=ratio)
             if isinstance(op, ast.Div):
                 self.oblige(st, "safe", "div-zero", rb != 0, line)
-                return RealV(ra / rb)
+                if one(qa) and one(qb):
+                    ratio = (qa[0], qb[0])
+                return RealV(ra / rb, ratio=ratio)
             raise Unsupported(f"real op {type(op).__name__} line {line}")
         x = S.as_int(self.need_int(a, st, node))
         y = S.as_int(self.need_int(b, st, node))
@@ -1696,20 +1737,39 @@ class Exec:
         n = itv["n"]
         j = self.fresh_int("cj")
         s = st.copy()
+        base_len = len(s.pc)
+        ndefs = len(self.ctx.defs)
         self.guards.append(z3.And(0 <= j, j < n))
+        self.ctx.binders.append(j)
         try:
             self.assign(g.target, itv["elem"](j, s), s, node)
             elt = self.eval(node.elt, s)
         finally:
+            self.ctx.binders.pop()
             self.guards.pop()
+        jj = z3.Int("j!comp")
+        rng_ = z3.And(0 <= jj, jj < n)
+        # definitional constraints created for the element (division witnesses, range counts) hold for every element
+        newdefs = list(self.ctx.defs[ndefs:])
+        del self.ctx.defs[ndefs:]
+        del self.ctx.defs.anchors[ndefs:]
+        for d in newdefs:
+            self.ctx.defs.append(z3.ForAll([jj], z3.Implies(rng_, z3.substitute(d, (j, jj)))), None)
+        for f in s.pc[base_len:]:
+            st.pc.append(z3.ForAll([jj], z3.Implies(rng_, z3.substitute(f, (j, jj)))))
+        if isinstance(elt, SliceV):
+            self.nfresh += 1
+            out = SliceSeqV.fresh(f"comp!{self.nfresh}", n)
+            comps = {"n0": S._b(elt.start.n), "v0": S._i(elt.start.v), "n1": S._b(elt.stop.n), "v1": S._i(elt.stop.v),
+                     "n2": S._b(elt.step.n), "v2": S._i(elt.step.v)}
+            for k, t in comps.items():
+                st.pc.append(z3.ForAll([jj], z3.Implies(rng_, z3.Select(out.a[k], jj) == z3.substitute(t, (j, jj))),
+                                       patterns=[z3.Select(out.a[k], jj)]))
+            return out
         out = self.fresh_value("seq" if kind == "tuple" else "lseq", "comp")
         e = S.as_int(self.need_int(elt, s, node))
-        body = z3.substitute(e, (j, j))
-        st.pc.append(S.f_len(out.t) == n)
-        jj = z3.Int("j!comp")
-        body = z3.substitute(e, (j, jj))
-        extra = [z3.substitute(x, (j, jj)) for x in s.pc[len(st.pc) - 1:]] if len(s.pc) > len(st.pc) - 1 else []
-        st.pc.append(z3.ForAll([jj], z3.Implies(z3.And(0 <= jj, jj < n), S.f_at(out.t, jj) == body),
+        st.pc.append(S.f_len(out.t) == z3.If(n > 0, n, 0))
+        st.pc.append(z3.ForAll([jj], z3.Implies(rng_, S.f_at(out.t, jj) == z3.substitute(e, (j, jj))),
                                patterns=[S.f_at(out.t, jj)]))
         return out
 
@@ -1799,6 +1859,7 @@ class Exec:
                 s2.trail.append((node.lineno, f"raises {exc}"))
                 if self.feasible(s2):
                     raising.append(("raise", s2, (exc, node.lineno)))
+        self.call_log.append((c.qualname, params, res))
         yield ("val", s1, res)
         yield from raising
 
@@ -1823,13 +1884,24 @@ class Exec:
             gv = z3.Int(f"g_{g}!{self.nfresh}")
             ghosts[g] = I(gv)
             gvars.append(gv)
-        clauses = self.ensures_clauses(c, params, res, ghosts)
+        # evaluate the clauses with the ghosts as binders: definitional constraints created for them (division
+        # witnesses, range counts) are then facts about every ghost value, not about one constant
+        ndefs = len(self.ctx.defs)
+        self.ctx.binders.extend(gvars)
+        try:
+            clauses = self.ensures_clauses(c, params, res, ghosts)
+            pats_by = {}
+            if c.call_patterns is not None:
+                kw = {k: unwrap(v) for k, v in params.items()}
+                kw.update({k: unwrap(v) for k, v in ghosts.items()})
+                pats_by = c.call_patterns(result=unwrap(res), **kw) or {}
+        finally:
+            del self.ctx.binders[len(self.ctx.binders) - len(gvars):]
+        newdefs = list(self.ctx.defs[ndefs:])
+        del self.ctx.defs[ndefs:]
+        del self.ctx.defs.anchors[ndefs:]
         subs = [(S._i(ghosts[g].v), S.as_int(inst[g])) for g in inst]
-        pats_by = {}
-        if c.call_patterns is not None:
-            kw = {k: unwrap(v) for k, v in params.items()}
-            kw.update({k: unwrap(v) for k, v in ghosts.items()})
-            pats_by = c.call_patterns(result=unwrap(res), **kw) or {}
+        quantified_any = False
         for name, t in clauses.items():
             used = [g for g in gvars if _occurs(t, g)]
             if not used:
@@ -1840,6 +1912,16 @@ class Exec:
             pats = pats_by.get(name)
             if pats:
                 out.append(z3.ForAll(used, t, patterns=pats))
+                quantified_any = True
+        for d in newdefs:
+            used = [g for g in gvars if _occurs(d, g)]
+            if not used:
+                self.ctx.defs.append(d, None)
+                continue
+            if all(any(g.eq(a) for a, _ in subs) for g in used):
+                self.ctx.defs.append(z3.substitute(d, *subs), None)
+            if quantified_any:
+                self.ctx.defs.append(z3.ForAll(used, d), None)
         return out
 
     def select_spec(self, name, cs, args, kwargs, node):
